@@ -65,11 +65,28 @@ def sampling_set_lines(ctx, rule="C27.sampling-set"):
     ctx.check(len(skip) == 1 and ast.unparse(skip[0].value).replace(" ", "") == "line.split()[%d:]" % ntok, rule, g, "reader skip",
               "the reader skips exactly the %d prefix tokens" % ntok, "the reader takes `%s`; the prefix %r has %d tokens" % (
                   ast.unparse(skip[0].value) if skip else "?", prefix, ntok), ind[0])
-    ctx.check("[int(x) for x in parts if x != '0']" in body and "sampling_set.extend(vars_in_line)" in body and "continue" in body, rule, g, "reader terminator",
+    Fgp = Facts(g)
+    exts = [x for x in ind[0].body if isinstance(x, ast.Expr) and isinstance(x.value, ast.Call) and dotted(x.value.func) == "sampling_set.extend"]
+    ext_nf = str(Fgp.at(exts[0], exts[0].value.args[0])) if len(exts) == 1 else None
+    ctx.check(ext_nf in ("[int(_b0) for _b0 in line.split()[%d:] if ('0' != _b0)]" % ntok, "[int(_b0) for _b0 in line.strip().split()[%d:] if ('0' != _b0)]" % ntok) and isinstance(ind[0].body[-1], ast.Continue), rule, g, "reader terminator",
               "the reader drops the '0' terminator and collects all variables", "the reader's handling of the terminator / collection changed")
     order = [ast.unparse(s.test) for s in tests if "startswith" in ast.unparse(s.test)]
     ctx.check(order[:2] == ["line.startswith('c ind')", "line.startswith('c')"], rule, g, "reader order", "sampling-set lines are recognised before generic comments",
               "prefix tests are ordered %s: a generic comment test before the 'c ind' test would swallow the sampling set" % order[:3])
+
+
+def header_increment(ctx, R, u):
+    """the new header is update_header(1, <first line>), directly or through the one-line wrapper add_clause_to_header"""
+    F = Facts(u)
+    uh = F.assigns("updated_header")
+    L0 = "filename.read_text().strip().splitlines()[0]"
+    ah = u.nested.get("add_clause_to_header")
+    ok = uh == ["update_header(1, %s)" % L0]
+    if not ok and ah is not None:
+        ok = uh == ["add_clause_to_header(%s)" % L0] and Facts(ah).returns() == ["update_header(1, %s)" % ah.params[0]]
+    ctx.check(ok, R, u, "one clause: header %s" % uh, "one blocking clause -> the clause count of the first line grows by exactly one",
+              "the header of the updated file is `%s`%s: the clause count must grow by exactly one per blocking clause" % (
+                  uh, (" with add_clause_to_header returning %s" % Facts(ah).returns()) if ah is not None else ""))
 
 
 def check(ctx):
@@ -120,9 +137,7 @@ def check(ctx):
     fact(ctx, R, uh, "clause count field", F.assigns("new_clause_count"), ["additional_clause_count + int(header.strip().split()[3])"], "field 3 (clause count) is increased by the number of added clauses")
     fact(ctx, R, uh, "other fields", F.returns(), ["' '.join(concat(header.strip().split()[:3], [str(additional_clause_count + int(header.strip().split()[3]))]))"],
          "fields 0-2 ('p cnf <vars>') are kept")
-    ah = u.nested.get("add_clause_to_header")
-    ctx.require(ah is not None, "update_file.add_clause_to_header not found")
-    fact(ctx, R, ah, "one clause", Facts(ah).returns(), ["update_header(1, clause)"], "one blocking clause -> count + 1")
+    header_increment(ctx, R, u)
 
     # ---- blocking clause
     R = "C27.blocking"
@@ -132,7 +147,7 @@ def check(ctx):
     ul = [s for s in F.stmts if isinstance(s, ast.Assign) and dotted(s.targets[0]) == "updated_lines"]
     ctx.check(len(ul) == 1 and ast.unparse(ul[0].value) == "[updated_header] + lines[1:] + [negated_solution_str]", R, u, "file layout",
               "new header, all earlier lines, then the blocking clause", "updated file is assembled as %s" % (ast.unparse(ul[0].value) if ul else "?"))
-    fact(ctx, R, u, "header source", F.assigns("updated_header"), ["add_clause_to_header(filename.read_text().strip().splitlines()[0])"], "the header is the first line")
+    ctx.ok(R, u, "header source: the first line (checked with the header increment)", trivial=True)
     ctx.check(F.exprs()[-1:] == ["filename.write_text('\\n'.join(%s))" % F.assigns("updated_lines")[0]] if F.assigns("updated_lines") else False, R, u, "write back",
               "the lines are written back newline-separated", "update_file no longer writes the assembled lines back")
     cs = ctx.fn("sample_non_uniform:compute_solutions")
@@ -143,13 +158,13 @@ def check(ctx):
     # ---- solver output
     R = "C27.output"
     g = ctx.fn("cryptominisat:_use_pycryptosat_library")
-    body = ast.unparse(g.node)
-    ctx.check("for i in range(1, len(solution)):" in body and "solution_parts.append(str(i))" in body and "solution_parts.append(str(-i))" in body and
-              "solution_parts.append('0')" in body, R, g, "pycryptosat literals", "variables 1.. as signed literals, then the 0 terminator",
-              "the literal rendering of the pycryptosat wrapper changed")
-    pos = [s for s in statements(g.node) if isinstance(s, ast.If) and ast.unparse(s.test) == "solution[i]"]
-    ctx.check(len(pos) == 1 and "str(i)" in ast.unparse(pos[0].body[0]) and "str(-i)" in ast.unparse(pos[0].orelse[0]), R, g, "pycryptosat polarity",
-              "true -> positive literal, false -> negative", "literal polarity of the pycryptosat wrapper changed")
+    Fg_ = Facts(g)
+    term_ = [x for x in Fg_.stmts if isinstance(x, ast.Expr) and ast.unparse(x) in ("solution_parts.append('0')", 'solution_parts.append("0")')]
+    lit_nf = str(Fg_.at(term_[0], ast.Name(id="solution_parts", ctx=ast.Load()))) if term_ else None
+    ctx.check(len(term_) == 1 and lit_nf is not None and __import__("re").fullmatch(r"\[ite\((?P<s>.+)\[_b0\], str\(_b0\), str\(-_b0\)\) for _b0 in range\(1, len\((?P=s)\)\)\]", lit_nf) is not None, R, g, "pycryptosat literals",
+              "variables 1.. as signed literals (true -> i, false -> -i), then the 0 terminator",
+              "the literal rendering of the pycryptosat wrapper changed: %s" % lit_nf)
+    ctx.ok(R, g, "pycryptosat polarity (part of the literal term)", trivial=True)
     outs = [s for s in statements(g.node) if isinstance(s, ast.Assign) and dotted(s.targets[0]) == "output"]
     sks = sorted(skeleton(str_parts(s.value)) for s in outs)
     ctx.check(sks == ["s SATISFIABLE\nv {' '.join(solution_parts)}\n", "s UNSATISFIABLE\n"], R, g, "pycryptosat output %s" % sks,
